@@ -387,7 +387,7 @@ func stripCP(v any) any {
 }
 
 func chunking(c *vh.Ctx) {
-	n := c.N(40, 2000)
+	n := c.N(40, 800)
 	vh.Parallel(n, func(i int) {
 		if c.Skip("c14-chunking", i) {
 			return
